@@ -354,6 +354,11 @@ class Ctx:
         return self.ex.psolver.check(self.pc + list(extra)) != 'unsat'
 
 
+class StopExploration(Exception):
+    """raised by a harness / instrumentation when the verdict of the harness is already established (e.g. the taint run has
+    recorded secret-dependent control flow): the current path ends here and the remaining work list is dropped"""
+
+
 class PathResult:
     __slots__ = ('decisions', 'pc', 'obligations', 'outcome', 'value', 'notes', 'steps')
 
@@ -392,6 +397,10 @@ class Explorer:
             except UnwindExceeded as u:
                 r.outcome = 'unwind'
                 r.value = u
+            except StopExploration as st:
+                r.outcome = 'stopped'
+                r.value = st
+                self.work = []
             r.decisions = ctx.decisions
             r.pc = ctx.pc
             r.obligations = ctx.obligations
